@@ -54,6 +54,20 @@ def cmdPeatT (j : Json) : Except String Json := do
   pure (jList (fun z => match tPeatclsm k0 al zmax z with
     | .ok v => fenc v | .error _ => Json.str "refused") zs)
 
+/-- unit conversions of `simulate recession`: curvature m/km² → 1/km, levels cm → mm, PEATCLSM transmissivity
+    per second → per day (applied to its own value at the given levels; "refused" above zeta_max) -/
+def cmdUnits (j : Json) : Except String Json := do
+  let c ← fdec (← field j "curvature_m_km2")
+  let zcm ← listOf fdec (← field j "zeta_cm")
+  let k0 ← fdec (← field j "Ksmacz0")
+  let al ← fdec (← field j "alpha")
+  let zmax ← fdec (← field j "zeta_max_cm")
+  let zs ← listOf fdec (← field j "zs")
+  pure (Json.mkObj [("curvature_km", fenc (curvatureKm c)), ("grid_mm", jList fenc (zcm.map levelMm)),
+    ("per_day", jList (fun z => match tPeatclsm k0 al zmax z with
+      | .ok _ => fenc (perDay (fun x => match tPeatclsm k0 al zmax x with | .ok v => v | .error _ => Float.ofBits 0x7ff8000000000bad) z)
+      | .error _ => Json.str "refused") zs)])
+
 /-- cumulative curve from recorded per-cell integrals, centred on `mean` -/
 def cmdCurve (j : Json) : Except String Json := do
   let grid ← listOf fdec (← field j "grid")
